@@ -32,13 +32,25 @@ macro_rules! __verif_cover { ($($t:tt)*) => {}; }
 class Workspace:
     def __init__(self, prop, tag="ws"):
         self.prop = prop
-        self.root = os.path.join(SCRATCH_ROOT, f"{prop}-{os.getpid()}", tag)
+        # fixed scratch path per property (lets cargo's fingerprints hit across runs); a concurrent run of the same
+        # property falls back to a pid-specific path
+        base = os.path.join(SCRATCH_ROOT, prop)
+        self.lock = None
+        try:
+            os.makedirs(SCRATCH_ROOT, exist_ok=True)
+            fd = os.open(base + ".lock", os.O_CREAT | os.O_RDWR)
+            import fcntl
+            fcntl.flock(fd, fcntl.LOCK_EX | fcntl.LOCK_NB)
+            self.lock = fd
+        except OSError:
+            base = os.path.join(SCRATCH_ROOT, f"{prop}-{os.getpid()}")
+        self.root = os.path.join(base, tag)
         self.diffs = []
 
     def create(self):
         if not os.path.isdir(VENDOR) or not os.listdir(VENDOR):
             raise Undecided("vendor directory missing: run MANIFEST.setup_cmd first")
-        shutil.rmtree(os.path.dirname(self.root), ignore_errors=True)
+        shutil.rmtree(self.root, ignore_errors=True)
         os.makedirs(self.root)
         rc, out, _, _ = run(["rsync", "-a", "--exclude", "/target", "--exclude", ".git", "--exclude",
                              "rust-toolchain.toml", REPO + "/", self.root + "/"])
@@ -49,7 +61,17 @@ class Workspace:
         return self
 
     def destroy(self):
-        shutil.rmtree(os.path.dirname(self.root), ignore_errors=True)
+        shutil.rmtree(self.root, ignore_errors=True)
+        try:
+            os.rmdir(os.path.dirname(self.root))
+        except OSError:
+            pass
+        if self.lock is not None:
+            try:
+                os.close(self.lock)
+            except OSError:
+                pass
+            self.lock = None
 
     def path(self, rel):
         return os.path.join(self.root, rel)
